@@ -7,8 +7,10 @@ fn table() -> Vec<(&'static str, RunFn, ReplayFn, &'static str)> {
     vec![
         ("C01", vh::c01::run_c01, vh::c01::replay_c01, vh::c01::RULE_C01),
         ("C02", vh::c01::run_c02, vh::c01::replay_c02, vh::c01::RULE_C02),
+        ("C03", vh::c03::run, vh::c03::replay, vh::c03::RULE),
         ("C04", vh::c04::run, vh::c04::replay, vh::c04::RULE),
         ("C13", vh::c13::run, vh::c13::replay, vh::c13::RULE),
+        ("C15", vh::c15::run, vh::c15::replay, vh::c15::RULE),
     ]
 }
 
